@@ -131,6 +131,11 @@ class LcapyStrPrinter(StrPrinter):
 
         return self._print(eq.lhs) + ',' + self._print(eq.rhs)
 
+    def _print_Exp1(self, expr):
+        # SymPy prints Euler's number as E but Lcapy reads E as a
+        # symbol (E is the name of a component).
+        return 'exp(1)'
+
     def _print_Symbol(self, expr):
         # Do not canonicalise name since this is required for name
         # matching.  The only caller is the __str__ method for Expr.
@@ -437,6 +442,20 @@ class LcapyPrettyPrinter(PrettyPrinter):
 
 # print_function is a decorator to replace kwargs with the printer
 # settings in __signature__
+
+class NetlistStrPrinter(StrPrinter):
+    """Print a SymPy expression so that Lcapy reads it back unchanged."""
+
+    def _print_Exp1(self, expr):
+        # Lcapy reads E as a symbol (E is the name of a component).
+        return 'exp(1)'
+
+
+def netlist_str(expr):
+    """Convert SymPy expression into a string for a netlist value."""
+
+    return NetlistStrPrinter().doprint(expr)
+
 
 @print_function(LcapyStrPrinter)
 def print_str(expr, **settings):
